@@ -115,7 +115,15 @@ def main():
         # keep the replay files the check wrote for this tree
         key = "alt_" + hashlib.sha1(wt.encode()).hexdigest()[:10]
         reps = os.path.join(VERIF, ".work", "alt", "replays")
-        res["replays"] = [l.split("replay=")[1] for l in out.splitlines() if l.startswith("VIOLATION")]
+        res["replays"] = []
+        keep = os.path.join(VERIF, ".work", "kept_replays", name)
+        for l in out.splitlines():
+            if l.startswith("VIOLATION") and "replay=" in l:
+                src = l.split("replay=")[1].strip()
+                if os.path.exists(src):
+                    os.makedirs(keep, exist_ok=True)
+                    shutil.copy(src, keep)
+                    res["replays"].append(os.path.join(keep, os.path.basename(src)))
         print(json.dumps(res))
     finally:
         sh(["git", "-C", "/repo", "worktree", "remove", "--force", wt])
